@@ -242,6 +242,15 @@ func (ba *badgerBatch) PutNode(ptr *node.Pointer) error {
 		Key: key,
 	})
 
+	if ba.chunk {
+		// Log the inserted node so that it can be removed in case the multipart restore is aborted
+		// or interrupted. The log is flushed before the nodes.
+		logKey := multipartRestoreNodeLogKeyFmt.Encode(byte(ba.oldRoot.Type), key)
+		if err = ba.batMeta.Set(logKey, []byte{}); err != nil {
+			return err
+		}
+	}
+
 	dbKey := ba.deriveNodeDbKey(key)
 	if ba.seqNo != 0 {
 		// Need to commit at tsMetadata so this can be garbage-collected upon finalization.
